@@ -74,9 +74,10 @@ func init() {
 		add(map[string]interface{}{"op": "Gather", "shape": []int{3, 2}, "ishape": []int{2}, "default": true, "i32": false})
 		add(map[string]interface{}{"op": "Gather", "shape": []int{2, 2}, "ishape": []int{2, 2}, "default": true, "i32": true, "dtype": "float32"})
 		// Expand
-		for _, s := range [][]int{{}, {1}, {3}, {2, 1}, {1, 3}, {2, 3}, {2, 1, 2}} {
+		// ((1,1), (1,1,1): one element, yet a higher rank than a short target)
+		for _, s := range [][]int{{}, {1}, {3}, {2, 1}, {1, 3}, {2, 3}, {2, 1, 2}, {1, 1}, {1, 1, 1}} {
 			for _, n := range []int{1, 2, 3} {
-				if n == 3 && !th && len(s) > 1 {
+				if n == 3 && !th && len(s) > 1 && s[0] != 1 {
 					continue
 				}
 				add(map[string]interface{}{"op": "Expand", "shape": s, "n": n})
